@@ -146,11 +146,21 @@ func (c *Channel) registerSubChannelFunding(id channel.ID, initBals channel.Bala
 
 func (c *Channel) registerSubChannelSettlement(id channel.ID, bals [][]channel.Bal) {
 	filter := func(cu ChannelUpdate) bool {
-		_, containedBefore := c.machine.State().SubAlloc(id)
-		_, containedAfter := cu.State.SubAlloc(id)
-		equalBalances := c.machine.State().Balances.Add(bals).Equal(cu.State.Balances)
-
-		return containedBefore && !containedAfter && equalBalances
+		cur := c.machine.State()
+		subAlloc, containedBefore := cur.SubAlloc(id)
+		if !containedBefore {
+			return false
+		}
+		// Exactly the settled channel's sub-allocation is removed.
+		remaining := cur.Clone()
+		if remaining.RemoveSubAlloc(subAlloc) != nil ||
+			channel.SubAllocsAssertEqual(remaining.Locked, cu.State.Locked) != nil {
+			return false
+		}
+		if len(bals) != len(cur.Balances) || len(bals) == 0 || len(bals[0]) != len(cur.Balances[0]) {
+			return false
+		}
+		return cur.Balances.Add(bals).Equal(cu.State.Balances)
 	}
 	ui := newUpdateInterceptor(filter)
 	c.subChannelWithdrawals.Register(id, ui)
